@@ -872,7 +872,7 @@ class Engine:
             return [Out("ok", st, V(FN, ("clsattr", cname, attr)))]
         if t == "module":
             return [Out("ok", st, V(FN, ("ext", b.t, attr)))]
-        if t in ("str", "list", "dict", "odict", "seq", "real", "int"):
+        if t in ("str", "list", "dict", "odict", "seq", "real", "int", "bool"):
             return [Out("ok", st, V(FN, ("prim", b, attr)))]
         if t == "exc":
             if attr == "code" and b.aux and "code" in b.aux:
